@@ -28,7 +28,7 @@ def N(kind, via, tiers, prefix=False, **kw):
               desc="%s written and read back (%s), two values with a separator%s" % (kn, vn, ", after a prefix character" if prefix else ""), **kw)
 QT = ("quick", "thorough")
 OBLIGATIONS = [N(0, 0, QT), N(1, 0, QT), N(0, 1, QT), N(1, 1, QT), N(0, 2, QT, prefix=True), N(1, 2, QT, prefix=True), N(0, 3, QT),
-R("plain", 1, QT, timeout=1500), R("prefix", 1, ("thorough",), extra=["WITH_PREFIX"], timeout=3000), R("two", 1, ("thorough",), extra=["TWO"], timeout=3000),
+R("plain", 1, QT, timeout=1500), R("prefix", 1, ("thorough",), extra=["WITH_PREFIX"], timeout=3000, mem_gb=28), R("two", 1, ("thorough",), extra=["TWO"], timeout=3000, mem_gb=28),
                R("plain", 2, ("probe",), timeout=3600, mem_gb=28)]
 LEVEL_TEXT = ("Bounded model checking of the real writers and readers (String_Show/String_Look, Int_Show/Int_Look, Float_Show/Float_Look, show_to/look_from, print_to_with/scan_from_with, "
               "String_Format_To/String_Format_From) on a String sink: every String of <= 1 content byte over the full byte range (quotes, backslashes, control characters), every int64 and "
